@@ -43,28 +43,64 @@ class Network:
         self.transports.append(tr)
 
     def mode(self):
-        t = self.loop.time() - self.t0
-        for dur, mode in self.phases:
-            if t < dur:
+        """phases = [(duration_s | "until:<STATE>", mode)]; a trigger phase lasts until `state_fn()` first returns <STATE>
+        (state_fn is set by the harness, e.g. the manager's state name); afterwards the network is healthy for good.
+        modes: healthy | blackout | rferr | lossy:<p> | noping (every APING datagram is lost, both ways) |
+               first:<n> (the first n transmissions of each request verb are lost) | combinations joined by '+'"""
+        now = self.loop.time()
+        if not hasattr(self, "_ends"):
+            self._ends, self._cur = [], self.t0            # absolute end times of finished phases
+        while len(self._ends) < len(self.phases):
+            dur, mode = self.phases[len(self._ends)]
+            if isinstance(dur, str):
+                want = dur.split(":", 1)[1]
+                fn = getattr(self, "state_fn", None)
+                if fn is not None and fn() == want:
+                    self._ends.append(now)
+                    self._cur = now
+                    continue
                 return mode
-            t -= dur
+            if now < self._cur + dur:
+                return mode
+            self._cur += dur
+            self._ends.append(self._cur)
         return "healthy"
 
     def healthy_from(self):
-        return self.t0 + sum(d for d, _ in self.phases)
+        """absolute time from which the network is healthy for good (None while a trigger phase is still open)"""
+        self.mode()
+        if len(self._ends) < len(self.phases):
+            if any(isinstance(d, str) for d, _ in self.phases[len(self._ends):]):
+                return None
+            return self._cur + sum(d for d, _ in self.phases[len(self._ends):])
+        return self._ends[-1] if self._ends else self.t0
 
-    def _drop(self):
-        m = self.mode()
-        if m == "blackout":
-            return True
-        if m.startswith("lossy:"):
-            return self.rng.random() < float(m.split(":")[1])
+    @staticmethod
+    def _verb(data):
+        i = data.find(b"<DATAS>")
+        return bytes(data[i + 7:i + 12]) if i >= 0 else bytes(data[:5])
+
+    def _drop(self, data=b"", outbound=False):
+        for m in self.mode().split("+"):
+            if m == "blackout":
+                return True
+            if m.startswith("lossy:") and self.rng.random() < float(m.split(":")[1]):
+                return True
+            if m == "noping" and self._verb(data) == b"APING":
+                return True
+            if m.startswith("first:") and outbound and self._verb(data) not in (b"APING", b"<HELL"):
+                if not hasattr(self, "_seen"):
+                    self._seen = {}
+                v = self._verb(data)
+                self._seen[v] = self._seen.get(v, 0) + 1
+                if self._seen[v] <= int(m.split(":")[1]):
+                    return True
         return False
 
     def sendto(self, tr, data, addr):
         """client -> spa"""
         self.log.append((self.loop.time(), "c>s", data))
-        if self._drop():
+        if self._drop(data, outbound=True):
             self.dropped += 1
             return
         self.loop.call_later(self.latency, self._to_sim, tr, data)
@@ -91,7 +127,7 @@ class Network:
                 continue
             target = [t for t in self.transports if t.addr[:2] == tuple(dest[:2]) and not t.closed]
             for t in target:
-                if self._drop():
+                if self._drop(payload):
                     self.dropped += 1
                     continue
                 self.order += 1
